@@ -454,6 +454,54 @@ def r09_5(ctx):
     return rr
 
 
+def reduction_lowering_aligned(ctx):
+    """(ok, explanation): a weighted Reduction has nothing to unify at lowering - reduction() puts the weights on x's grid
+    before the node is built, and Reduction._lower builds its per-chunk Blockwise with align_arrays=False."""
+    repo = ctx.repo
+    m = repo.mod("dask_array.reductions._reduction")
+    red = m.cls("Reduction")
+    lo = red.methods.get("_lower")
+    mk = m.functions.get("reduction")
+    if lo is None or mk is None:
+        return False, "Reduction._lower / reduction() not found"
+    calls = [n for n in body_walk(lo.node) if isinstance(n, ast.Call) and (dotted(n.func) or "").rsplit(".", 1)[-1] == "blockwise"]
+    if not calls:
+        return False, "Reduction._lower builds no blockwise node"
+    for c in calls:
+        kw = {k.arg: k.value for k in c.keywords if k.arg}
+        v = kw.get("align_arrays")
+        if not (isinstance(v, ast.Constant) and v.value is False):
+            return False, f"Reduction._lower calls blockwise(...) at line {c.lineno} without align_arrays=False: the per-chunk node unifies x and the weights under the setting in force while lowering"
+    from .common import cfg_of, chain_conjuncts
+
+    cfg = cfg_of(ctx, mk)
+    hand = [s_ for s_ in cfg.stmts() if isinstance(s_, ast.Assign) and any(unparse(t) == "weights_expr" for t in s_.targets) and not (isinstance(s_.value, ast.Constant) and s_.value.value is None)]
+    if not hand:
+        return False, "reduction() no longer derives weights_expr from the weights"
+    for h in hand:
+        src = [x.id for x in ast.walk(h.value) if isinstance(x, ast.Name)]
+        if not src:
+            return False, "weights_expr is not derived from a local"
+        w = src[0]
+        par = cfg.parent.get(h)
+        sibs = cfg._siblings(h, par[0], par[1]) if par else []
+        i = sibs.index(h) if h in sibs else -1
+        aligned = False
+        for prev in reversed(sibs[:i] if i > 0 else []):
+            # ``if w.chunks != x.chunks: w = w.rechunk(x.chunks)`` or the unconditional rechunk
+            cand = prev.body[0] if isinstance(prev, ast.If) and len(prev.body) == 1 and not prev.orelse else prev
+            if isinstance(cand, ast.Assign) and any(unparse(t) == w for t in cand.targets):
+                v = cand.value
+                is_re = isinstance(v, ast.Call) and isinstance(v.func, ast.Attribute) and v.func.attr == "rechunk" and unparse(v.func.value) == w and v.args and unparse(v.args[0]) == "x.chunks"
+                if is_re:
+                    cj = chain_conjuncts(cfg, cand, mk.node, mk.module) - chain_conjuncts(cfg, h, mk.node, mk.module)
+                    aligned = cj <= {f"{w}.chunks != x.chunks"}
+                break
+        if not aligned:
+            return False, f"reduction() hands `{w}` to the node without first putting it on x's grid ({w} = {w}.rechunk(x.chunks))"
+    return True, "reduction() rechunks the weights to x.chunks before building the node and Reduction._lower passes align_arrays=False: nothing is unified while lowering"
+
+
 def _name_members(repo, c):
     """Members of class ``c`` (properties, cached properties, methods) that its resolved ``_name`` reaches through
     ``self.<member>`` references (``deterministic_token`` stands for the resolved ``__dask_tokenize__``), to depth 4."""
@@ -579,6 +627,12 @@ def lowering_config_rule(ctx, rule_id="R09.6"):
             if (key, r.qualname) in LOWERING_CONFIG_ROOTS:
                 rr.exempt(c_r, LOWERING_CONFIG_ROOTS[(key, r.qualname)])
                 continue
+            if r.qualname == "Reduction._lower" and key in ("array.unify-chunks-policy", "array.unify-chunks-limit"):
+                ok_, why_ = ctx.cached("reduction-lowering-aligned", lambda: reduction_lowering_aligned(ctx))
+                if ok_:
+                    rr.exempt(c_r, "decided on every run, not a frozen exemption: " + why_ + " (the remaining static path Reduction._lower -> blockwise -> asanyarray -> stack only takes list arguments, which a Reduction never passes)")
+                    continue
+                how = why_
             ctx.finding(
                 rr, c_r,
                 f"configuration {key!r} is read in {f.qualname}, reachable from {r.qualname} ({how}): lowering results are memoised by node name across the whole process "
